@@ -95,8 +95,9 @@ Theorem C08_mux_complete :
 Proof. exact @mux_complete. Qed.
 Print Assumptions C08_mux_complete.
 
-(* every value type of the property has an encoder and a writer in every format; the only
-   exclusion is an integer outside 64 bits in the two SQL formats (that is K9) *)
+(* every value type of the property has an encoder and a writer in every format; excluded are
+   the values the database / a text file refuses (an integer outside 64 bits in the two SQL
+   formats, a string with a lone surrogate outside JSON) *)
 Theorem C08_encode_total :
   forall f v, encodable f v = true -> exists c, encode f false v = Ok c.
 Proof. exact encode_total. Qed.
@@ -110,7 +111,8 @@ Theorem C08_success_means_lossless_partial :
 Proof. exact success_means_lossless_partial. Qed.
 Print Assumptions C08_success_means_lossless_partial.
 
-(* K9: three rows, one holding 2**70, `--dburl sqlite:...`: close() raises inside
+(* K9: three rows, one holding a value the database refuses at close time (the string "\ud800"),
+   `--dburl sqlite:...`: close() raises inside
    configure_output_stream's try/except, the run reports success, the database is empty; with
    a JSON file and an SQL script next to it, those two are never closed *)
 Theorem C08_refuted_close_error_swallowed :
